@@ -95,6 +95,7 @@ fn key_main<C: key::KeyColl>(a: &Args, tr: &mut out::Trace) {
             let states: Vec<out::Snap> = text.lines().filter(|l| !l.trim().is_empty()).map(|l| out::parse_snap(l).expect("start state")).collect();
             key::run_ind::<C>(tr, &states, a.num("export", 1) != 0);
         }
+        "scale" => key::run_scale::<C>(tr, a.num("seed", 1) as u64, &a.str("rounds", "ABC"), a.num("deep", 0) as i32),
         "sizes" => key::run_sizes::<C>(tr, a.num("max", 100000) as u64, a.num("seed", 1) as u64),
         "paths" | "faults" => {
             let text = std::fs::read_to_string(a.str("paths", "")).expect("paths file");
@@ -134,6 +135,18 @@ fn ord_main<C: ord::OrdColl>(a: &Args, tr: &mut out::Trace) {
         "replay" => {
             let text = std::fs::read_to_string(a.str("file", "")).expect("replay file");
             ord::run_replay::<C>(tr, &text, a.num("keys", 8) as i32);
+        }
+        "scale" => {
+            let plan: Vec<(i32, i32)> = a
+                .str("plan", "15:26")
+                .split(',')
+                .filter(|x| !x.is_empty())
+                .map(|x| {
+                    let (p, q) = x.split_once(':').expect("n1:n2");
+                    (p.parse().expect("n1"), q.parse().expect("n2"))
+                })
+                .collect();
+            ord::run_scale::<C>(tr, &plan, a.num("seed", 1) as u64, a.num("full", 1) != 0, a.num("cap", -1), a.num("snapevery", 16) as u64, a.num("deep", 0) as i32, a.num("faults", 0) != 0);
         }
         "ind" => {
             let text = std::fs::read_to_string(a.str("states", "")).expect("states file");
